@@ -161,7 +161,11 @@ func specSec(sb *strings.Builder, s *Sec) bool {
 			sb.WriteString(" " + o)
 		}
 	default:
-		fmt.Fprintf(sb, " SL %x %s", s.Type, H(s.Body))
+		if s.Ext && isLeafType(s.Type) {
+			fmt.Fprintf(sb, " SX %x %s", s.Type, H(s.Body))
+		} else {
+			fmt.Fprintf(sb, " SL %x %s", s.Type, H(s.Body))
+		}
 	}
 	return true
 }
